@@ -130,11 +130,14 @@ def p1(R):
     # outstanding count arithmetic:  size = len(chunk); pos += size; remaining -= size
     sizes = [n for n in arm if n.kind == 'stmt' and isinstance(n.ast, ast.Assign) and U(n.ast.value) == 'len(%s)' % chunk]
     szv = U(sizes[0].ast.targets[0]) if sizes else 'len(%s)' % chunk
-    decs = [n for n in arm if n.kind == 'stmt' and isinstance(n.ast, ast.AugAssign) and U(n.ast.target) == rem
-            and isinstance(n.ast.op, ast.Sub) and U(n.ast.value) == szv]
-    adv = [n for n in arm if n.kind == 'stmt' and isinstance(n.ast, ast.AugAssign) and U(n.ast.target) == 'pos'
-           and isinstance(n.ast.op, ast.Add) and U(n.ast.value) == szv]
-    R.ob('C02.P1a', 'position and outstanding count advance by the chunk size', len(decs) == 1 and len(adv) == 1,
+    from .common import updates_of, exactly_once
+    decs_ = updates_of(arm, rem, ast.Sub)
+    adv_ = updates_of(arm, 'pos', ast.Add)
+    decs = [n for (n, d) in decs_]
+    adv = [n for (n, d) in adv_]
+    okd = bool(decs_) and all(d == szv for (n, d) in decs_) and exactly_once(g, normal_succs(cd), decs, [head, g.exit], skip_edge=nx)
+    oka = bool(adv_) and all(d == szv for (n, d) in adv_) and exactly_once(g, normal_succs(cd), adv, [head, g.exit], skip_edge=nx)
+    R.ob('C02.P1a', 'position and outstanding count advance by the chunk size', okd and oka,
          'pos/remaining updates: %s / %s' % ([n.text() for n in adv], [n.text() for n in decs]), func=f, node=cd.ast,
          construct='pos/remaining arithmetic')
     lits = {(t, p) for (t, p, _) in guards_of(g, sn)}
@@ -190,16 +193,21 @@ def p1(R):
     R.ob('C02.P1b', 'the coroutine receives the bytes up to and including the terminator', ok, 'send(%s)' % U(arg), func=f, node=sc2)
     # re-entry of the tail: data, pos re-bound from the buffer tail before the buffer is cleared
     reb = [n for n in arm2 if n.kind == 'stmt' and isinstance(n.ast, ast.Assign) and U(n.ast.targets[0]) == data]
-    ok = len(reb) == 1 and isinstance(reb[0].ast.value, ast.Subscript) and U(reb[0].ast.value.value) in bufnames \
-        and isinstance(reb[0].ast.value.slice, ast.Slice) and reb[0].ast.value.slice.upper is None \
-        and reb[0].ast.value.slice.lower is not None and is_hdr_end(reb[0], reb[0].ast.value.slice.lower)
+    rv, rvn = rd.origin(reb[0], reb[0].ast.value) if len(reb) == 1 else (None, None)     # through a local copy of the tail
+    ok = len(reb) == 1 and isinstance(rv, ast.Subscript) and U(rv.value) in bufnames \
+        and isinstance(rv.slice, ast.Slice) and rv.slice.upper is None \
+        and rv.slice.lower is not None and is_hdr_end(rvn, rv.slice.lower)
     posr = [n for n in arm2 if n.kind == 'stmt' and isinstance(n.ast, ast.Assign) and U(n.ast.targets[0]) == 'pos' and U(n.ast.value) == '0']
     clears = [n for n in g.live_nodes() if n.kind == 'stmt' and ((isinstance(n.ast, ast.Delete) and U(n.ast.targets[0]).split('[')[0] in bufnames)
                                                                    or (isinstance(n.ast, ast.Expr) and U(n.ast.value).split('.clear')[0] in bufnames
                                                                        and U(n.ast.value).endswith('.clear()')))]
     cl2 = [n for n in clears if n in arm2]
-    ok = ok and len(posr) == 1 and bool(cl2) and all(all_paths_pass(g, [fn], reb + [], [c], skip_edge=nx) for c in cl2) \
-        and all(all_paths_pass(g, [fn], posr, [c], skip_edge=nx) for c in cl2)
+    # the tail is sliced off before the buffer is cleared; data / pos are re-bound before the loop continues
+    ok = ok and len(posr) == 1 and bool(cl2) and all(all_paths_pass(g, [fn], [rvn], [c], skip_edge=nx) for c in cl2) \
+        and all(all_paths_pass(g, normal_succs(c), reb, [head, g.exit], skip_edge=nx) or all_paths_pass(g, [fn], reb, [c], skip_edge=nx)
+                for c in cl2) \
+        and all(all_paths_pass(g, normal_succs(c), posr, [head, g.exit], skip_edge=nx) or all_paths_pass(g, [fn], posr, [c], skip_edge=nx)
+                for c in cl2)
     R.ob('C02.P1b', 'bytes after the terminator re-enter the loop of the same call', ok,
          'after the header terminator the remaining bytes of the read are not re-fed (data/pos not re-bound from the buffer '
          'tail before the buffer is cleared): frames arriving in the same read as the HTTP response are lost or delayed',
